@@ -398,7 +398,9 @@ CHECKS["C15"]["outside"] = "concurrent reverts of one transaction (row-lock beha
 CHECKS["C15"]["assumptions"] = COMMON_ASSUME + DBMODEL_ASSUME + SQL_ASSUME
 CHECKS["C17"]["units"].append(py_unit("writes", "writes-C17", ["--props", "C17"]))
 CHECKS["C17"]["explanation"] += " Write half: the metadata statements captured from the real store (UpdateAccountsMetadata upsert, DeleteAccountMetadata, Update/DeleteTransactionMetadata) executed on symbolic tables: last-write-wins merge per key, a delete removes exactly the key, the modified flag tells whether anything changed, no other row changes."
-CHECKS["C17"]["outside"] = "the history triggers (revision numbering, the date stored with a revision) are not encoded; metadata filters; more than 2 keys"
+CHECKS["C17"]["units"].append(py_unit("c17_history", "c17-history", []))
+CHECKS["C17"]["explanation"] += " History triggers: the bodies of insert_/update_account_metadata_history and insert_/update_transaction_metadata_history (resolved from the migrations) and the row triggers that fire them (read from default_bucket.go) are executed by the PL/pgSQL interpreter on a symbolic history table: one inductive step shows that after an update dated d (not before the entity's recorded dates) the as-of function the PIT reads compute returns the new metadata from d on and what it returned before for earlier instants, that a creation starts the history at its date, that the unique (ledger, entity, revision) key is kept and that no other entity's history changes."
+CHECKS["C17"]["outside"] = "updates dated before a recorded revision of the same entity (import of out-of-order dates); that updated_at is what the store passes as the write's date (Go side, covered by the controller harnesses); metadata filters (C20); more than 2 keys"
 CHECKS["C19"]["units"].append(py_unit("writes", "writes-C19", ["--props", "C19"]))
 CHECKS["C19"]["explanation"] += " Writes: every captured write statement (volume upsert, account upserts, metadata updates and deletes, revert update) executed on symbolic tables leaves every row of another ledger — and every row it does not name — unchanged."
 CHECKS["C19"]["outside"] = "trigger bodies and log/transaction inserts (sequences); that the alone-in-bucket flag is only set while the bucket holds one ledger; several server processes sharing a bucket"
